@@ -199,6 +199,7 @@ def run(ctx: Ctx):
     # ---- O6 who may write ------------------------------------------------------------
     _o6(ctx, rel)
     # ---- O8 reader / writer path agreement -----------------------------------------
+    _o9_o10(ctx, rel)
     _o8(ctx, rel)
     plumbing(ctx, "S0", g3=False, g4=False)
     return dict(
@@ -544,6 +545,41 @@ def _o6(ctx, rel):
            "the CSV header row is not guarded by an emptiness test of the history file", rel, f.line,
            sample="a crash after open(path, 'a') and before the first flush leaves an existing, empty file: every later update then "
                   "appends rows without a header and the next controller raises KeyError('epoch')")
+
+
+def _o9_o10(ctx, rel):
+    """O9: after an interrupted update, files of that attempt (old checkpoints whose clean-up did not run, temporaries of a
+    save that did not finish) are in the state directory; 'exactly those two epochs' files and nothing else' needs some code
+    that looks at the directory (listdir / scandir / glob) and reconciles it with the history.
+    O10: the in-memory history is extended (`self.cache_hist[epoch] = info`) before the refusals that can still `raise` in
+    the same update; after such an exception the controller believes in an epoch that was never recorded, and the next
+    update's row makes the file no prefix of any uninterrupted history."""
+    col, pkg = ctx.col, ctx.pkg
+    ci = pkg.cls(f"{MOD}::{CLS}")
+    listing = []
+    for fl in ci.methods.values():
+        for m in fl:
+            for c in own_calls(m.node):
+                if call_name(c) in ("os.listdir", "os.scandir", "glob.glob", "glob.iglob") or (
+                        isinstance(c.func, ast.Attribute) and c.func.attr in ("iterdir", "glob", "rglob")):
+                    listing.append((m.qualname, u(c)[:60]))
+    col.ob("G10", "O9", f"{rel}::{CLS}::state-directory-reconciled-with-the-history", bool(listing),
+           "no method of the controller ever lists the state directory: old checkpoints whose clean-up was cut short by a crash, "
+           "and NamedTemporaryFile(delete=False) files of a save that did not finish, stay there after every later completed "
+           "update, so the directory does not hold 'exactly the last and best epochs' files and nothing else'", rel, ci.node.lineno,
+           sample=listing)
+    f = pkg.func(f"{MOD}::{CLS}.update_for_epoch")
+    stores = [n for n in own_nodes(f.node) if isinstance(n, ast.Assign) and any(
+        isinstance(t, ast.Subscript) and u(t.value) == "self.cache_hist" for t in n.targets)]
+    raises = [n for n in own_nodes(f.node) if isinstance(n, ast.Raise)]
+    if len(stores) != 1:
+        raise AnalysisError(f"C16: expected one extension of self.cache_hist in update_for_epoch, found {len(stores)}")
+    late = [r for r in raises if r.lineno > stores[0].lineno]
+    col.ob("G10", "O10", f"{rel}::{CLS}.update_for_epoch::no-refusal-after-the-in-memory-history-was-extended", not late,
+           f"`{u(stores[0])}` (line {stores[0].lineno}) precedes {len(late)} `raise` statement(s) of the same update (first at line "
+           f"{min(r.lineno for r in late) if late else 0}): when a refusal fires (e.g. 'would overwrite best') nothing is written, yet "
+           f"get_last_epoch() already counts the epoch, and the next recorded row skips it", rel, stores[0].lineno,
+           sample=[r.lineno for r in late])
 
 
 def _o8(ctx, rel):
